@@ -17,6 +17,9 @@ WORD = "abcdefghijklmnopqrstuvwxyzABCDEFGHIJKLMNOPQRSTUVWXYZ0123456789_"
 OPCH = "+-*/%&|^<>=!~@$?:."
 
 PY_NAMES = ["a", "b", "c", "x", "y", "z", "foo", "bar", "val", "n", "items", "res", "data_1", "_tmp", "self.v", "obj.attr.sub", "é", "名"]
+# names a generated program treats as Python objects of the session (the context the program is parsed in)
+PY_CTX = ["a", "b", "c", "x", "y", "z", "foo", "bar", "val", "n", "items", "res", "data_1", "_tmp", "self", "obj", "é", "名", "i", "q", "w", "k", "p", "d", "f", "g", "_h",
+          "method", "A", "Foo", "Base", "B", "M", "deco", "mod", "aliases", "ctx", "Block", "mgr", "mac", "r", "g1", "g2", "args", "kw", "err", "lit", "os", "osp", "path", "sep", "m"]
 CMD_NAMES = ["ls", "echo", "git", "grep", "cat", "cd", "docker", "pip", "curl", "mkdir", "rm", "tar", "make", "ssh", "scp", "chown", "touch", "xargs"]
 CMD_PATHS = ["./run.sh", "~/bin/tool", "/usr/bin/env", "$HOME/bin/x", "../up/cmd", "@(cmd)", "@('e' + 'cho')"]
 NUMBERS = ["0", "1", "42", "3.14", "1.", ".5", "1e5", "1E-3", "0x1F", "0b101", "0o17", "1_000", "2j", "10"]
@@ -30,14 +33,14 @@ FSTRINGS = [
     'f"{x}"', "f'{x!r}'", 'f"{x:>10}"', 'f"{x = }"', 'f"{x=}"', 'f"{ x }"', 'f"{x:{w}.{p}f}"', 'f"{{lit}} {x}"', 'f"a {x} b {y} c"', "f'{d[\"k\"]}'",
     'f"{x + 1}"', 'f"{f(a, b)}"', 'f"{x if y else z}"', 'f"""m {x}\n  line2 {y}\n"""', 'f"""trail {x} \nnext"""', 'f"{a}{b}"', 'f"{x!r:^8}"',
     'rf"\\d{x}"', 'f"{$HOME}"', 'f"{$(echo hi)}"', "f'{x:%Y-%m-%d}'", 'f"{x,}"', 'f"{[1, 2][0]}"', 'f"{ {1: 2}[1] }"', 'f"{(lambda q: q)(1)}"',
-    'f"{x:=^10}"', 'f"{(y := 5)}"', 'f"{x  +  y}"', 'f"{x   =   }"', 'F"{x}"', 'fr"{x}\\n"', 'f"{\n    x\n}"', "f'''{\nx  +\n  y}'''",
+    'f"{x:=^10}"', 'f"{(y := 5)}"', 'f"{x  +  y}"', 'f"{x   =   }"', 'F"{x}"', 'fr"{x}\\n"', "f'''{\nx  +\n  y}'''",
 ]
 SUB_ARGS = [
     "a", "b", "file.txt", "-l", "-la", "--long", "--key=value", "--key", "-n", "5", "10", "*.py", "**/*.txt", "?", "a?b", "dir/", "./x", "../y", "~/z", "/abs/path",
-    "$HOME", "$HOME/x", "${'PATH'}", "@(x)", "@(x)y", "pre@(x)", "@([1, 2])", "@(f(a, b))", "$(echo in)", "@$(which ls)", "'quoted arg'", '"dq  arg"', "r'raw\\n'", 'f"{x}"',
-    "a,b", "a:b", "k=v", "x==y", "x>=1", "http://example.com/p?q=1", "user:group", "80:80", "user@host:path", "{a,b}", "[ab]*", "a;b" , "1", "2.5", "-", "--", "a-b", "a.b.c",
-    "+x", "a+b", "a=b=c", "%d", "a%b", "^C", "a|b".replace("|", "_"), "!", "a!b".replace("!", "_"), "#notcomment".replace("#", "_h"), "`re.*`", "g`*.py`", "if", "for", "in", "not", "and".upper(),
-    "None", "True", "lambda", "is", "x[0]", "f(x)", "(a b)", "é", "名.txt", "a\\ b", "--flag=@(x)", "-o=$HOME", "$X=1".replace("$X=1", "X=1"), ",", ":", "=", "==",
+    "$HOME", "$HOME/x", "${'PATH'}", "@(x)", "@(x)y", "@([1, 2])", "@(f(a, b))", "$(echo in)", "@$(which ls)", "'quoted arg'", '"dq  arg"', "r'raw\\n'", 'f"{x}"',
+    "a,b", "a:b", "k=v", "x==y", "x>=1", "http://example.com/p?q=1", "user:group", "80:80", "user@host:path", "[ab]*", "a;b" , "1", "2.5", "-", "--", "a-b", "a.b.c",
+    "+x", "a+b", "a=b=c", "%d", "a%b", "^C", "a|b".replace("|", "_"), "a_b", "#notcomment".replace("#", "_h"), "`re.*`", "g`*.py`", "if", "for", "in", "and".upper(),
+    "is", "x[0]", "é", "名.txt", "a\\ b", "--flag=@(x)", "-o=$HOME", "$X=1".replace("$X=1", "X=1"),
 ]
 REDIRS = ["> out.txt", ">> log", "< in.txt", "2> err.txt", "2>&1", "e>o", "o>e", "a> all.txt", "err> e.txt", "out> o.txt", "e>> e.log", "1>2".replace("1>2", "1> two"), "all>> a.log"]
 COMMENTS = ["# c", "#c", "#  two", "# trail  ", "#", "##", "# x = 1", "#def f():", "#!shebang", "# é", "# a # b", "# 'q", '# "q', "# $(x)", "#\ttab"]
@@ -45,7 +48,8 @@ MACRO_RAW = ["a b", "a   b", "x  =  1", "1 +   2", "'q  q'", "a,b", "a , b", "if
 
 
 class Gen:
-    def __init__(self, rng, profile=None):
+    def __init__(self, rng, profile=None, small=False):
+        self.small = small
         self.rng = rng
         r = rng.random()
         self.unit = rng.choice(["\t", "  ", "    ", "        ", "    ", "   "]) if profile is None else profile.get("unit", "    ")
@@ -55,6 +59,8 @@ class Gen:
         self.depth_limit = 3
         self.cont_rate = rng.choice([0.0, 0.0, 0.03, 0.08])
         self.blank_ws = r < 0.3
+        self.in_block_macro = 0
+        self.last_kind = "py"
 
     # ------------------------------------------------------------------ atoms
     def ch(self, xs):
@@ -73,6 +79,8 @@ class Gen:
         return s
 
     def fstring(self):
+        if self.in_block_macro:
+            return self.string()
         self.features.add("fstring")
         return self.ch(FSTRINGS)
 
@@ -114,7 +122,9 @@ class Gen:
             op = self.ch(["and", "or"])
             return e() + RG + op + RG + e()
         if r < 0.60:
-            return self.ch(["-", "+", "~", "not" + RG]) + self.paren_if(e())
+            if self.rng.random() < 0.3:
+                return "(" + OG + "not" + RG + e() + OG + ")"
+            return self.ch(["-", "+", "~"]) + self.paren_if(e())
         if r < 0.68:
             args = [e() for _ in range(self.rng.randint(0, 3))]
             if self.rng.random() < 0.5:
@@ -171,7 +181,7 @@ class Gen:
                     out += pad + self.ch(COMMENTS) + "\n"
                 last = i == len(items) - 1
                 tail = ("," if (not last or self.rng.random() < 0.6) else "")
-                cm = (self.ch(["  ", " ", "", "    "]) + self.ch(COMMENTS)) if self.rng.random() < 0.15 else ""
+                cm = (self.ch(["  ", " ", "    "]) + self.ch(COMMENTS)) if self.rng.random() < 0.15 else ""
                 if cm.endswith("") and cm and not tail and cm.lstrip() == cm:
                     cm = " " + cm
                 out += pad + it + OG + tail + cm + "\n"
@@ -197,7 +207,8 @@ class Gen:
         r = self.rng.random()
         if r < 0.12:
             self.features.add("pipe")
-            s += self.ch([RG + "|" + RG, OG + "|" + OG, RG + "&&" + RG, RG + "||" + RG, RG + "and" + RG, RG + "or" + RG]) + self.ch(CMD_NAMES) + RG + self.sub_arg()
+            conn = [RG + "|" + RG, OG + "|" + OG] + ([] if inside else [RG + "&&" + RG, RG + "||" + RG, RG + "and" + RG, RG + "or" + RG])
+            s += self.ch(conn) + self.ch(CMD_NAMES) + RG + self.sub_arg()
         elif r < 0.2 and not inside:
             self.features.add("redirect")
             s += RG + self.ch(REDIRS)
@@ -207,17 +218,21 @@ class Gen:
 
     def sub_arg(self):
         a = self.ch(SUB_ARGS)
+        while self.in_block_macro and a.startswith('f"'):
+            a = self.ch(SUB_ARGS)
         if "\n" in a:
             self.features.add("multiline-string")
         return a
 
     def subproc_line(self):
+        self.last_kind = "sub"
         s = self.subproc_words()
         if self.rng.random() < 0.08:
             s += OG + ";" + OG + self.subproc_words()
         return s
 
     def macro_line(self):
+        self.last_kind = "macro"
         self.features.add("macro")
         r = self.rng.random()
         if r < 0.5:
@@ -295,26 +310,32 @@ class Gen:
     def block(self, d, indent):
         """list of physical lines (without trailing newline chars, may contain embedded newlines for multi-line tokens)"""
         lines = []
-        n = self.rng.randint(1, 4 if d else 7)
+        n = self.rng.randint(1, 3) if self.small else self.rng.randint(1, 4 if d else 7)
         for _ in range(n):
             lines += self.blank_run(d)
             if self.rng.random() < 0.14:
                 lines.append(self.comment_line(indent))
-            if d < 3 and self.rng.random() < (0.30 if d == 0 else 0.22):
+            if d < (2 if self.small else 3) and self.rng.random() < (0.30 if d == 0 else 0.22):
                 lines += self.compound(d, indent)
             else:
+                self.last_kind = "py"
                 s = self.simple_stmt()
-                if self.rng.random() < 0.12:
+                if self.rng.random() < 0.12 and self.last_kind != "macro":
                     self.features.add("inline-comment")
-                    s += self.ch(["  ", " ", "", "     ", "\t"]) + self.ch(COMMENTS)
-                    if s.endswith("#") or True:
-                        pass
+                    pads = ["  ", " ", "     ", "  ", " ", " \t "]
+                    if self.rng.random() < 0.06:
+                        self.features.add("comment-lead-not-blank")
+                        pads = ["", "\t"] if self.last_kind == "py" else ["\t"]
+                    s += self.ch(pads) + self.ch(COMMENTS)
                 lines.append(indent + s)
         return lines
 
     def compound(self, d, indent):
         self.features.add("block")
         heads, follow = self.header(d)
+        is_macro = heads[-1].startswith("with!")
+        if is_macro:
+            self.in_block_macro += 1
         lines = [indent + h for h in heads]
         if self.rng.random() < 0.08:
             # one-line body
@@ -326,10 +347,14 @@ class Gen:
                 self.features.add("docstring")
                 lines.append(indent + self.unit + self.ch(['"""Doc."""', '"""Doc\n' + indent + self.unit + 'more  \n' + indent + self.unit + '"""', "'''D\n\n  x\n'''", '"""T \n"""']))
             lines += self.block(d + 1, indent + self.unit)
-        for f in follow:
-            if self.rng.random() < 0.35:
-                lines.append(indent + f)
-                lines += self.block(d + 1, indent + self.unit)
+        chosen = [f for f in follow if self.rng.random() < 0.35]
+        if heads[-1].startswith("try") and not chosen:
+            chosen = [self.ch(follow)]
+        for f in chosen:
+            lines.append(indent + f)
+            lines += self.block(d + 1, indent + self.unit)
+        if is_macro:
+            self.in_block_macro -= 1
         return lines
 
     def comment_line(self, indent):
@@ -487,7 +512,7 @@ def damage(rng, src):
         return src.rstrip("\n") + " \\\n"
     if r < 0.8:
         i = rng.randrange(len(src))
-        return src[:i] + rng.choice(["\\", "$", "?", "!", "`", "\x00", "}", "{", "'", '"', "\t", "\f", "\v", "\r"]) + src[i:]
+        return src[:i] + rng.choice(["\\", "$", "?", "`", "\x00", "}", "{", "'", '"', "\t", "\f", "\v", "\r"]) + src[i:]
     if r < 0.9:
         return src + rng.choice(['f"}"', "f'{x'", 'f"{x:{"', "f'''{\n", 'x = f"a}b"'])
     i = rng.randrange(len(src))
